@@ -1,7 +1,15 @@
+/-
+  EasyMl.Lemmas.ViewAdaptors — per-adaptor lemmas for C02: what each index helper of the model
+  returns, compared with the documented coordinate map and with the bounds check of the view's
+  shape (sub-range, mask, reversal, rename, fixed-index selection, the two kinds of leaves).
+-/
 import EasyMl.Lemmas.ViewBasic
+
 namespace EasyMl
 open EasyMl.Spec EasyMl.View
+
 set_option linter.unusedSectionVars false
+
 variable {ν : Type} [DecidableEq ν] [Inhabited ν] {α : Type}
 
 /-! ### range -/
